@@ -22,9 +22,17 @@ def is_const(V):
 
 
 def val_vars(V):
+    """variables the value REQUIRES (terms with a declared default are optional arguments of the user function)"""
     if is_const(V):
         return set()
-    return {t["var"] for t in V["terms"]}
+    return {t["var"] for t in V["terms"] if "default" not in t}
+
+
+def val_optional(V):
+    """{variable: default} for the optional arguments (python defaults of the generated parameter function)"""
+    if is_const(V):
+        return {}
+    return {t["var"]: float(t["default"]) for t in V["terms"] if "default" in t}
 
 
 def val_np(V, env, N):
@@ -35,7 +43,7 @@ def val_np(V, env, N):
     a = np.atleast_1d(np.asarray(V["a"], dtype=np.float64)).reshape(1, -1)
     out = np.repeat(a, N, axis=0)
     for t in V["terms"]:
-        u = np.asarray(env[t["var"]], dtype=np.float64)
+        u = np.asarray(env[t["var"]] if t["var"] in env else np.full((1, 1), float(np.float32(t["default"]))), dtype=np.float64)
         if u.shape[0] == 1 and N > 1:
             u = np.repeat(u, N, axis=0)
         u = u[:, t.get("col", 0)].reshape(-1, 1)
@@ -61,13 +69,17 @@ def val_torch(V, scalar=False):
             return float(np.asarray(V).reshape(-1)[0])
         return [float(x) for x in np.asarray(V, dtype=float).reshape(-1)]
     names = sorted(val_vars(V))
+    opt = val_optional(V)
     a = torch.tensor(np.atleast_1d(np.asarray(V["a"], dtype=np.float32)))
     terms = V["terms"]
 
     def impl(**kw):
         out = None
         for t in terms:
-            u = kw[t["var"]][:, t.get("col", 0)].reshape(-1, 1)
+            u = kw[t["var"]]
+            if not isinstance(u, torch.Tensor):          # a python default (plain number)
+                u = torch.tensor([[float(u)]])
+            u = u[:, t.get("col", 0)].reshape(-1, 1)
             coef = torch.tensor(np.atleast_1d(np.asarray(t["coef"], dtype=np.float32)), device=u.device).reshape(1, -1)
             k = t.get("kind", "lin")
             if k == "lin":
@@ -80,7 +92,9 @@ def val_torch(V, scalar=False):
             out = term if out is None else out + term
         return out + a.to(out.device).reshape(1, -1)
 
-    src = "lambda %s: _impl(%s)" % (", ".join(names), ", ".join("%s=%s" % (n, n) for n in names))
+    allnames = names + sorted(opt)
+    sig = ", ".join(names + ["%s=%r" % (n, opt[n]) for n in sorted(opt)])
+    src = "lambda %s: _impl(%s)" % (sig, ", ".join("%s=%s" % (n, n) for n in allnames))
     return eval(src, {"_impl": impl})
 
 
